@@ -7,6 +7,7 @@
 package core
 
 import (
+	"flag"
 	"io"
 	"testing"
 
@@ -29,6 +30,10 @@ func c01NewManager(scaleMin bool, sysMax, defMax corev1.ResourceList) *c01Manage
 func c01Quiet() {
 	klog.LogToStderr(false)
 	klog.SetOutput(io.Discard)
+	// errors would still be copied to stderr (the manager logs one for every refused double add / remove)
+	fs := flag.NewFlagSet("c01-klog", flag.ContinueOnError)
+	klog.InitFlags(fs)
+	_ = fs.Set("stderrthreshold", "FATAL")
 }
 
 type c01CoreDriver struct{ gqm *GroupQuotaManager }
